@@ -1,5 +1,395 @@
 import FcpptModel.Prelude.Proto
-/-! Driver for C17 — placeholder until the property's model is built. -/
+import FcpptModel.Spec.C17
+/-!
+Driver for C17.  Operations (one per line):
+
+* `st <ty> <a> <b>`        — ty ∈ i32 u32 i64 u64; every `strong_typedef` operator on operands a, b
+                             (`ub` where the underlying operator is undefined: signed overflow)
+* `sts <ty> <a> <lo> <hi>` — digest of the `st` lines for b = lo .. hi
+* `rel <type> <a> <b>`     — a, b values of the type as comma separated component lists (`-` = empty);
+                             prints `== != < > <= >=` (`-` = not offered by the type), hash agreement, extras
+* `rels <type> <maxlen> <a>` — digest of `rel type a b` for every b of the type's domain
+                             (valid encodings of length ≤ maxlen with components in {0,1,2})
+* `tri <type> <maxlen> <a>`  — counts, over all b, c of the domain, violations of: `==` symmetric/transitive,
+                             `<` transitive, incomparability transitive, `<` compatible with `==`
+* `tri1 <type> <a> <b> <c>`  — the same flags for one triple
+* `wrap <x>`               — what reference / recursive / unique_ptr / shared_ptr / type_iso expose for x
+
+Value encodings: opt `-`|x; eith k,x (k=0 failure, 1 success); var i,x (i<3); tup/arr/earr/vec3 x,y,z;
+rec/vec2/dim2 x,y; sti/recu x; mat22 a,b,c,d (row-major); box2 px,py,sx,sy; sph2 ox,oy,r;
+bf3 b0,b1,b2,route (route 0 initializer list, 1 `~` of the complement, 2 `~~`); grid w,h,elements (w*h, row-major);
+tree pre-order of value,number-of-children; rv elements; ref i (i-th object of an array);
+sp i,o (pointer to the i-th object, owner o < 2).
+-/
 namespace Fcppt.C17.Drv
-def main : IO Unit := Fcppt.Proto.run (fun _ => "not-built")
+open Fcppt.Proto
+
+/-! ### strong_typedef operators -/
+
+def tyOf : String → Option IntTy
+  | "i32" => some .i32 | "u32" => some .u32 | "i64" => some .i64 | "u64" => some .u64
+  | _ => none
+
+def showM (r : M Int) : String := match r with | .ok v => toString v | .error _ => "ub"
+def showST (r : M ST) : String := match r with | .ok v => toString v.get | .error _ => "ub"
+def showPair (r : M (ST × ST)) : String :=
+  match r with | .ok (x, y) => s!"{x.get}/{y.get}" | .error _ => "ub"
+
+def stLine (t : IntTy) (a b : Int) : String :=
+  let l : ST := ⟨a⟩
+  let r : ST := ⟨b⟩
+  let e := ST.eq l r
+  let hId : Int → Nat := fun x => x.toNat
+  let heq := if e then b01 (ST.hash hId l == ST.hash hId r) else "-"
+  s!"add={showST (ST.add t l r)} sub={showST (ST.sub t l r)} mul={showST (ST.mul t l r)} neg={showST (ST.neg t l)}" ++
+  s!" and={(ST.band t l r).get} or={(ST.bor t l r).get} xor={(ST.bxor t l r).get} not={(ST.bnot t l).get}" ++
+  s!" preinc={showPair (ST.preInc t l)} predec={showPair (ST.preDec t l)} postinc={showPair (ST.postInc t l)} postdec={showPair (ST.postDec t l)}" ++
+  s!" addas={showPair (ST.addAssign t l r)} subas={showPair (ST.subAssign t l r)} mulas={showPair (ST.mulAssign t l r)}" ++
+  s!" andas={showPair (pure (ST.andAssign t l r))} oras={showPair (pure (ST.orAssign t l r))} xoras={showPair (pure (ST.xorAssign t l r))}" ++
+  s!" lt={b01 (ST.lt l r)} le={b01 (ST.le l r)} gt={b01 (ST.gt l r)} ge={b01 (ST.ge l r)} eq={b01 e} ne={b01 (ST.ne l r)}" ++
+  s!" heq={heq} iso={ST.undecorate (ST.decorate a)}"
+
+def stsDigest (t : IntTy) (a lo hi : Int) : String :=
+  let cnt := (hi - lo + 1).toNat
+  let h := (List.range cnt).foldl (fun h k => fnv h (stLine t a (lo + (k : Nat)))) fnvInit
+  "D " ++ hex64 h
+
+/-! ### comparison of the composite types -/
+
+inductive Ty where
+  | opt | eith | var | tup | arr | recd | sti | vec2 | vec3 | dim2 | mat22 | box2 | sph2 | bf3 | earr
+  | grid | tree | rv | ref | sp | recu
+  deriving DecidableEq, Repr
+
+def tyName : String → Option Ty
+  | "opt" => some .opt | "eith" => some .eith | "var" => some .var | "tup" => some .tup | "arr" => some .arr
+  | "rec" => some .recd | "sti" => some .sti | "vec2" => some .vec2 | "vec3" => some .vec3 | "dim2" => some .dim2
+  | "mat22" => some .mat22 | "box2" => some .box2 | "sph2" => some .sph2 | "bf3" => some .bf3 | "earr" => some .earr
+  | "grid" => some .grid | "tree" => some .tree | "rv" => some .rv | "ref" => some .ref | "sp" => some .sp
+  | "recu" => some .recu
+  | _ => none
+
+def ieq (a b : Int) : Bool := a == b
+def ilt (a b : Int) : Bool := decide (a < b)
+
+def toVec (n : Nat) (l : List Int) : Option (Vector Int n) :=
+  if h : l.toArray.size = n then some ⟨l.toArray, h⟩ else none
+
+/-- parse the pre-order encoding of one tree; returns the tree and the rest -/
+def parseTree : Nat → List Int → Option (Tree Int × List Int)
+  | 0, _ => none
+  | fuel + 1, v :: k :: rest =>
+    if k < 0 then none else
+    let rec kids (fuel' : Nat) (cnt : Nat) (rest : List Int) (acc : List (Tree Int)) : Option (List (Tree Int) × List Int) :=
+      match cnt with
+      | 0 => some (acc.reverse, rest)
+      | c + 1 =>
+        match fuel' with
+        | 0 => none
+        | _ => match parseTree fuel rest with
+          | some (t, rest') => kids fuel' c rest' (t :: acc)
+          | none => none
+    match kids (fuel + 1) k.toNat rest [] with
+    | some (cs, rest') => some (Tree.node v cs, rest')
+    | none => none
+  | _ + 1, _ => none
+
+def toTree (l : List Int) : Option (Tree Int) :=
+  match parseTree (l.length + 1) l with
+  | some (t, []) => some t
+  | _ => none
+
+def toGrid (l : List Int) : Option (Grid Int 2) :=
+  match l with
+  | w :: h :: rest =>
+    if 0 ≤ w ∧ 0 ≤ h ∧ rest.length = w.toNat * h.toNat then
+      some ⟨⟨#[w.toNat, h.toNat], rfl⟩, rest⟩
+    else none
+  | _ => none
+
+/-- the bitfield over a 3-enumerator enum in 8-bit words, built along `route` -/
+def toBf (l : List Int) : Option (C10.Words 8) :=
+  match l with
+  | [b0, b1, b2, route] =>
+    if [b0, b1, b2].all (fun b => b == 0 || b == 1) then
+      let mem := (if b0 == 1 then [0] else []) ++ (if b1 == 1 then [1] else []) ++ (if b2 == 1 then [2] else [])
+      let co := (if b0 == 0 then [0] else []) ++ (if b1 == 0 then [1] else []) ++ (if b2 == 0 then [2] else [])
+      if route == 0 then some (C10.ofList 3 8 mem)
+      else if route == 1 then some (C10.not 3 (C10.ofList 3 8 co))
+      else if route == 2 then some (C10.not 3 (C10.not 3 (C10.ofList 3 8 mem)))
+      else none
+    else none
+  | _ => none
+
+/-- observations of one pair: `none` = operator not offered -/
+structure Obs where
+  eq : Bool
+  ne : Bool
+  lt : Option Bool := none
+  gt : Option Bool := none
+  le : Option Bool := none
+  ge : Option Bool := none
+  hash : Bool := false        -- the type offers a hash
+  hashEq : Bool := true       -- model: hashes of the two values are equal (evaluated when eq)
+  extra : String := ""
+
+def ob (o : Option Bool) : String := match o with | some b => b01 b | none => "-"
+
+def Obs.show (o : Obs) : String :=
+  let heq := if o.hash && o.eq then b01 o.hashEq else "-"
+  s!"eq={b01 o.eq} ne={b01 o.ne} lt={ob o.lt} gt={ob o.gt} le={ob o.le} ge={ob o.ge} heq={heq}{o.extra}"
+
+def hcD (x y : Nat) : Nat := x * 31 + y + 7
+def hD (x : Int) : Nat := (x + 1000).toNat
+
+def faultObs (f : Fault) : Except String Obs := .error f.name
+
+/-- run the model's comparison functions on a pair; `.error "bad-op"` for malformed values -/
+def relObs (ty : Ty) (a b : List Int) : Except String Obs := do
+  let bad : Except String Obs := .error "bad-op"
+  match ty with
+  | .opt =>
+    let dec : List Int → Option (Option Int) := fun l => match l with | [] => some none | [x] => some (some x) | _ => none
+    match dec a, dec b with
+    | some x, some y => pure { eq := Opt.eq ieq x y, ne := Opt.ne ieq x y, lt := some (Opt.lt ilt x y) }
+    | _, _ => bad
+  | .eith =>
+    let dec : List Int → Option (Sum Int Int) := fun l => match l with
+      | [0, x] => some (.inl x) | [1, x] => some (.inr x) | _ => none
+    match dec a, dec b with
+    | some x, some y => pure { eq := Either.eq ieq ieq x y, ne := Either.ne ieq ieq x y }
+    | _, _ => bad
+  | .var =>
+    let dec : List Int → Option (Var Int) := fun l => match l with
+      | [i, x] => if 0 ≤ i ∧ i < 3 then some ⟨i.toNat, x⟩ else none | _ => none
+    match dec a, dec b with
+    | some x, some y =>
+      pure { eq := Var.eq ieq x y, ne := Var.ne ieq x y, lt := some (Var.lt ilt x y),
+             extra := s!" cmp={b01 (Var.compare ieq x y)} cmplt={b01 (Var.compare ilt x y)}" }
+    | _, _ => bad
+  | .tup | .arr | .earr =>
+    match toVec 3 a, toVec 3 b with
+    | some x, some y =>
+      let e := equalV ieq x y
+      pure { eq := e, ne := !e, hash := ty == .arr, hashEq := rangeHash hcD hD x.toList == rangeHash hcD hD y.toList }
+    | _, _ => bad
+  | .recd =>
+    match a, b with
+    | [x0, x1], [y0, y1] =>
+      let r1 : Rec Int := [(0, x0), (1, x1)]
+      let r2 : Rec Int := [(0, y0), (1, y1)]
+      let r2p : Rec Int := [(1, y1), (0, y0)]     -- the same record as a type with permuted elements
+      match Rec.eq ieq r1 r2, Rec.ne ieq r1 r2, Rec.eq ieq r1 r2p, Rec.eq ieq r2p r1 with
+      | some e, some n, some xe, some ex => pure { eq := e, ne := n, extra := s!" xeq={b01 xe} exq={b01 ex}" }
+      | _, _, _, _ => .error "ill-formed"
+    | _, _ => bad
+  | .sti =>
+    match a, b with
+    | [x], [y] =>
+      let l : ST := ⟨x⟩; let r : ST := ⟨y⟩
+      pure { eq := ST.eq l r, ne := ST.ne l r, lt := some (ST.lt l r), gt := some (ST.gt l r), le := some (ST.le l r),
+             ge := some (ST.ge l r), hash := true, hashEq := ST.hash hD l == ST.hash hD r }
+    | _, _ => bad
+  | .recu =>
+    match a, b with
+    | [x], [y] => pure { eq := Recursive.eq ieq x y, ne := Recursive.ne ieq x y }
+    | _, _ => bad
+  | .vec2 | .dim2 =>
+    match toVec 2 a, toVec 2 b with
+    | some x, some y =>
+      -- vec2: the same comparisons against the right operand held in a matrix row view (storage does not matter)
+      let e := MVec.eq ieq x y
+      let mix := if ty == .vec2 then
+          s!" mix={b01 e}{b01 (MVec.ne ieq x y)}{b01 (MVec.eq ieq y x)}{b01 (MVec.ne ieq y x)}" ++
+          (if e then b01 (MVec.hash hcD hD x == MVec.hash hcD hD y) else "-")
+        else ""
+      pure { eq := e, ne := MVec.ne ieq x y, lt := some (MVec.lt ilt x y), gt := some (MVec.gt ilt x y),
+             le := some (MVec.le ilt x y), ge := some (MVec.ge ilt x y), hash := true,
+             hashEq := MVec.hash hcD hD x == MVec.hash hcD hD y, extra := mix }
+    | _, _ => bad
+  | .vec3 =>
+    match toVec 3 a, toVec 3 b with
+    | some x, some y =>
+      pure { eq := MVec.eq ieq x y, ne := MVec.ne ieq x y, lt := some (MVec.lt ilt x y), gt := some (MVec.gt ilt x y),
+             le := some (MVec.le ilt x y), ge := some (MVec.ge ilt x y), hash := true,
+             hashEq := MVec.hash hcD hD x == MVec.hash hcD hD y }
+    | _, _ => bad
+  | .mat22 =>
+    match toVec 4 a, toVec 4 b with
+    | some x, some y =>
+      pure { eq := MVec.eq ieq x y, ne := MVec.ne ieq x y, hash := true, hashEq := MVec.hash hcD hD x == MVec.hash hcD hD y }
+    | _, _ => bad
+  | .box2 =>
+    match toVec 2 (a.take 2), toVec 2 (a.drop 2), toVec 2 (b.take 2), toVec 2 (b.drop 2) with
+    | some p, some s, some q, some u =>
+      let x : Box Int 2 := ⟨p, s⟩; let y : Box Int 2 := ⟨q, u⟩
+      pure { eq := Box.eq ieq x y, ne := Box.ne ieq x y, lt := some (Box.lt ilt x y) }
+    | _, _, _, _ => bad
+  | .sph2 =>
+    match a, b with
+    | [a0, a1, ar], [b0, b1, br] =>
+      let x : Sphere Int 2 := ⟨⟨#[a0, a1], rfl⟩, ar⟩; let y : Sphere Int 2 := ⟨⟨#[b0, b1], rfl⟩, br⟩
+      pure { eq := Sphere.eq ieq x y, ne := Sphere.ne ieq x y }
+    | _, _ => bad
+  | .bf3 =>
+    match toBf a, toBf b with
+    | some x, some y =>
+      let hw : BitVec 8 → Nat := BitVec.toNat
+      pure { eq := C10.eq x y, ne := C10.ne x y, hash := true, hashEq := C10.hash hcD hw x == C10.hash hcD hw y,
+             extra := s!" m={(C10.members 3 x).foldl (fun m i => m + 2 ^ i) 0},{(C10.members 3 y).foldl (fun m i => m + 2 ^ i) 0}" }
+    | _, _ => bad
+  | .grid =>
+    match toGrid a, toGrid b with
+    | some x, some y =>
+      match Grid.eq ieq x y, Grid.ne ieq x y with
+      | .ok e, .ok n =>
+        pure { eq := e, ne := n, lt := some (Grid.lt ilt x y), gt := some (Grid.gt ilt x y), le := some (Grid.le ilt x y),
+               ge := some (Grid.ge ilt x y) }
+      | .error f, _ => faultObs f
+      | _, .error f => faultObs f
+    | _, _ => bad
+  | .tree =>
+    match toTree a, toTree b with
+    | some x, some y => pure { eq := Tree.eq ieq x y, ne := Tree.ne ieq x y }
+    | _, _ => bad
+  | .rv =>
+    match RawVec.eq ieq a b, RawVec.ne ieq a b with
+    | .ok e, .ok n =>
+      pure { eq := e, ne := n, lt := some (RawVec.lt ilt a b), gt := some (RawVec.gt ilt a b), le := some (RawVec.le ilt a b),
+             ge := some (RawVec.ge ilt a b), hash := true, hashEq := rangeHash hcD hD a == rangeHash hcD hD b }
+    | .error f, _ => faultObs f
+    | _, .error f => faultObs f
+  | .ref =>
+    match a, b with
+    | [i], [j] =>
+      if 0 ≤ i ∧ i < 3 ∧ 0 ≤ j ∧ j < 3 then
+        let x : Ref := ⟨i.toNat⟩; let y : Ref := ⟨j.toNat⟩
+        pure { eq := Ref.eq x y, ne := Ref.ne x y, lt := some (Ref.lt x y), hash := true,
+               hashEq := Ref.hash id x == Ref.hash id y }
+      else bad
+    | _, _ => bad
+  | .sp =>
+    match a, b with
+    | [i, o], [j, p] =>
+      if 0 ≤ i ∧ i < 3 ∧ 0 ≤ j ∧ j < 3 ∧ 0 ≤ o ∧ o < 2 ∧ 0 ≤ p ∧ p < 2 then
+        let x : SPtr := ⟨i.toNat, o.toNat⟩; let y : SPtr := ⟨j.toNat, p.toNat⟩
+        pure { eq := SPtr.eq x y, ne := SPtr.ne x y, lt := some (SPtr.lt x y), hash := true,
+               hashEq := SPtr.hash id x == SPtr.hash id y }
+      else bad
+    | _, _ => bad
+
+def relLine (ty : Ty) (a b : List Int) : String :=
+  match relObs ty a b with
+  | .ok o => o.show
+  | .error e => e
+
+/-- is `l` the encoding of a value of the type? -/
+def valid (ty : Ty) (l : List Int) : Bool :=
+  match relObs ty l l with
+  | .ok _ => true
+  | .error e => e != "bad-op"
+
+/-- all lists of length k over {0, …, m-1}, first component most significant -/
+def allLists (m : Nat) : Nat → List (List Int)
+  | 0 => [[]]
+  | k + 1 => (List.range m).flatMap fun (x : Nat) => (allLists m k).map fun r => (x : Int) :: r
+
+def domain (ty : Ty) (maxlen : Nat) : List (List Int) :=
+  (List.range (maxlen + 1)).flatMap fun k => (allLists 3 k).filter (valid ty)
+
+def relsDigest (ty : Ty) (maxlen : Nat) (a : List Int) : String :=
+  let d := domain ty maxlen
+  let h := d.foldl (fun h b => fnv h (relLine ty a b)) fnvInit
+  s!"D n={d.length} {hex64 h}"
+
+/-- (eq, lt) of a pair as the model sees them; `lt = none` when not offered -/
+def eqLt (ty : Ty) (a b : List Int) : Bool × Option Bool :=
+  match relObs ty a b with
+  | .ok o => (o.eq, o.lt)
+  | .error _ => (false, none)
+
+structure TriFlags where
+  sym : Bool
+  eqt : Bool
+  ltt : Bool
+  inc : Bool
+  cmp : Bool
+
+abbrev EL := Bool × Option Bool
+
+/-- violations on a triple (a, b, c), from the (eq, lt) observations of the six ordered pairs -/
+def triFlagsOf (ab ba bc cb ac ca : EL) : TriFlags :=
+  let g := fun (o : Option Bool) => o.getD false
+  let incomp := fun (x y : Option Bool) => !(g x) && !(g y)
+  let lab := ab.2
+  { sym := ab.1 != ba.1
+    eqt := ab.1 && bc.1 && !ac.1
+    ltt := lab.isSome && g lab && g bc.2 && !(g ac.2)
+    inc := lab.isSome && incomp lab ba.2 && incomp bc.2 cb.2 && !(incomp ac.2 ca.2)
+    cmp := lab.isSome && ab.1 && (g ac.2 != g bc.2 || g ca.2 != g cb.2) }
+
+def triFlags (ty : Ty) (a b c : List Int) : TriFlags :=
+  triFlagsOf (eqLt ty a b) (eqLt ty b a) (eqLt ty b c) (eqLt ty c b) (eqLt ty a c) (eqLt ty c a)
+
+def triLine (ty : Ty) (maxlen : Nat) (a : List Int) : String :=
+  let d := (domain ty maxlen).toArray
+  let n := d.size
+  let row := d.map fun b => eqLt ty a b          -- (a, b)
+  let col := d.map fun b => eqLt ty b a          -- (b, a)
+  let mat := d.map fun b => d.map fun c => eqLt ty b c
+  let z := (List.range n).foldl (fun acc i => (List.range n).foldl (fun (acc : Nat × Nat × Nat × Nat × Nat) j =>
+      let f := triFlagsOf row[i]! col[i]! (mat[i]!)[j]! (mat[j]!)[i]! row[j]! col[j]!
+      let (s, e, l, k, m) := acc
+      (s + f.sym.toNat, e + f.eqt.toNat, l + f.ltt.toNat, k + f.inc.toNat, m + f.cmp.toNat)) acc) (0, 0, 0, 0, 0)
+  let (s, e, l, i, k) := z
+  s!"n={n * n} sym={s} eqt={e} ltt={l} inc={i} cmp={k}"
+
+def tri1Line (ty : Ty) (a b c : List Int) : String :=
+  let f := triFlags ty a b c
+  s!"n=1 sym={f.sym.toNat} eqt={f.eqt.toNat} ltt={f.ltt.toNat} inc={f.inc.toNat} cmp={f.cmp.toNat}"
+
+/-! ### wrappers -/
+
+/-- `reference::get`, `recursive::get`, `*unique_ptr`, `*shared_ptr`, `undecorate (decorate x)` all show the
+wrapped object; the store maps the address of the one object to its value -/
+def wrapLine (x : Int) : String :=
+  let mem : Nat → Int := fun _ => x
+  let r : Ref := ⟨0⟩
+  s!"ref={Ref.get mem r} same=1 rec={x} uniq={x} shared={x} iso={ST.undecorate (ST.decorate x)}"
+
+def handle (toks : List String) : String :=
+  match toks with
+  | ["st", ty, a, b] =>
+    match tyOf ty, a.toInt?, b.toInt? with
+    | some t, some a, some b => if t.inRange a && t.inRange b then stLine t a b else "bad-op"
+    | _, _, _ => "bad-op"
+  | ["sts", ty, a, lo, hi] =>
+    match tyOf ty, a.toInt?, lo.toInt?, hi.toInt? with
+    | some t, some a, some lo, some hi =>
+      if t.inRange a && t.inRange lo && t.inRange hi && lo ≤ hi then stsDigest t a lo hi else "bad-op"
+    | _, _, _, _ => "bad-op"
+  | ["rel", ty, a, b] =>
+    match tyName ty, parseIntList a, parseIntList b with
+    | some ty, some a, some b => relLine ty a b
+    | _, _, _ => "bad-op"
+  | ["rels", ty, ml, a] =>
+    match tyName ty, ml.toNat?, parseIntList a with
+    | some ty, some ml, some a => if valid ty a && ml ≤ 8 then relsDigest ty ml a else "bad-op"
+    | _, _, _ => "bad-op"
+  | ["tri", ty, ml, a] =>
+    match tyName ty, ml.toNat?, parseIntList a with
+    | some ty, some ml, some a => if valid ty a && ml ≤ 8 then triLine ty ml a else "bad-op"
+    | _, _, _ => "bad-op"
+  | ["tri1", ty, a, b, c] =>
+    match tyName ty, parseIntList a, parseIntList b, parseIntList c with
+    | some ty, some a, some b, some c => if valid ty a && valid ty b && valid ty c then tri1Line ty a b c else "bad-op"
+    | _, _, _, _ => "bad-op"
+  | ["wrap", x] =>
+    match x.toInt? with
+    | some x => if IntTy.i32.inRange x then wrapLine x else "bad-op"
+    | none => "bad-op"
+  | _ => "bad-op"
+
+def main : IO Unit := Proto.run handle
+
 end Fcppt.C17.Drv
